@@ -68,7 +68,7 @@ static bool scen_prepare(struct scen* s) {
     case 'L':
       s->input = vh_exact(body, nb); s->ninput = nb;
       return true;
-    case 'C': case 'S': case 'D': {
+    case 'C': case 'S': case 'D': case 'U': {
       uint8_t* ex = vh_exact(body, nb);
       struct cbor_load_result r;
       s->pre[0] = cbor_load(ex, nb, &r);
@@ -143,6 +143,15 @@ static struct outcome scen_run(struct scen* s) {
       if (o.ok && buf) ta_free(buf);
       break;
     }
+    case 'U': { /* the size out-parameter is optional */
+      unsigned char* buf = (unsigned char*)(uintptr_t)0x10;
+      size_t w = cbor_serialize_alloc(s->pre[0], &buf, NULL);
+      o.ok = w != 0;
+      if (!o.ok && buf != NULL) o.channel_clean = false;
+      if (o.ok && buf == NULL) o.channel_clean = false;
+      if (o.ok && buf) ta_free(buf);
+      break;
+    }
     case 'D': { /* describe must not be affected (allocates nothing through the configured allocator) */
       static FILE* dn; if (!dn) dn = fopen("/dev/null", "w");
       cbor_describe(s->pre[0], dn); o.ok = true; break;
@@ -187,6 +196,7 @@ static void describe_scen(const uint8_t* d, size_t n, char* out, size_t cap) {
     case 'C': snprintf(out, cap, "cbor_copy(tree decoded from %s)", vh_hex(d + 1, n - 1, 40)); break;
     case 'S': snprintf(out, cap, "cbor_serialize_alloc(tree decoded from %s)", vh_hex(d + 1, n - 1, 40)); break;
     case 'D': snprintf(out, cap, "cbor_describe(tree decoded from %s)", vh_hex(d + 1, n - 1, 40)); break;
+    case 'U': snprintf(out, cap, "cbor_serialize_alloc(tree decoded from %s, size out-parameter NULL)", vh_hex(d + 1, n - 1, 40)); break;
     case 'Q': snprintf(out, cap, "cbor_copy(api-built tree %s)", vh_hex(d + 1, n - 1, 16)); break;
     case 'R': snprintf(out, cap, "cbor_serialize_alloc(api-built tree %s)", vh_hex(d + 1, n - 1, 16)); break;
     case 'B': snprintf(out, cap, "cbor_%s", builder_names[d[1] < NBUILDERS ? d[1] : 0]); break;
@@ -381,6 +391,7 @@ static void fault_run_all(void) {
       scen_input('L', x.p, x.n);
       scen_input('C', x.p, x.n);
       scen_input('S', x.p, x.n);
+      if (u % 4 == 0) scen_input('U', x.p, x.n);
       if (u % 64 == 0) scen_input('D', x.p, x.n);
       /* truncated / corrupted variants: failing loads must also be clean under refusals */
       if (x.n > 2 && u % 8 == 0) { scen_input('L', x.p, x.n - 1); x.p[x.n / 2] ^= 0x40; scen_input('L', x.p, x.n); }
